@@ -45,4 +45,5 @@ func checkC17(c *Ctx) {
 	c17R3R4(c)
 	c17R5(c)
 	c17R6(c)
+	c17R7(c)
 }
